@@ -92,6 +92,17 @@ PROPS["C18"] = dict(
                  "tzdata is embedded in the test binary (time/tzdata), so zone rules do not depend on the host"],
 )
 
+PROPS["C19"] = dict(
+    pkg="./props/dict", level="exploration", design_ref="DESIGN.md §3 C19",
+    technique="differential testing of datadictionary against an independent XML walk (specxml): all shipped files exhaustively, plus rapid-generated specifications with nested components/groups and dangling references",
+    stages=[dict(name="shipped", kind="plain", run="^TestC19_Shipped$", shards=1, timeout=(300, 600)),
+            dict(name="rapid", kind="rapid", run="^TestC19_Rapid$", checks=(2500, 40000), shards=(12, 16), timeout=(400, 2400))],
+    require=["shipped:FIX44", "shipped:FIX50SP2", "shipped:FIXT11", "generated:wellformed", "generated:with-nested-component",
+             "generated:dangling-field", "generated:dangling-component"],
+    assumptions=["generated specifications never list a tag twice in one definition and contain no component cycles (cycles are exercised by C09)",
+                 "when a field number or message type is declared twice in a file, the last declaration is the one compared"],
+)
+
 NOT_APPLICABLE = {}
 
 HOOK_COMMITS = ["ce15100"]
